@@ -1039,13 +1039,13 @@ class ComparisonReporter:
             precision = 5
             suffix = ""
 
-        # ensures that numbers that appear as "zero" are also colored neutrally
-        threshold = 10**-precision
+        # ensures that numbers that appear as "zero" are also colored neutrally (and only those): decide on the printed value
+        printed = float(f"{diff:.{precision}f}")
         formatted = f"{diff:.{precision}f}{suffix}"
 
-        if diff >= threshold:
+        if printed > 0:
             return color_greater(f"+{formatted}")
-        elif diff <= -threshold:
+        elif printed < 0:
             return color_smaller(formatted)
         else:
             return color_neutral(formatted)
